@@ -1,6 +1,7 @@
 package main
 
 import (
+	"strconv"
 	"context"
 	"encoding/json"
 	"flag"
@@ -203,6 +204,46 @@ func flushrateOne(dir string, tr *core.Tracer, sc *frScen) (int, error) {
 	for _, w := range sc.Writers {
 		if !threads[w].IsDone() {
 			stuck = append(stuck, w)
+		}
+	}
+	if len(stuck) == 0 {
+		// burst: two more writers make 8 rate-limited Puts each while the real flusher goroutine ticks every millisecond
+		// (the measured flush rate is forced down all the time so that every Put takes the waiting path): every one of
+		// them is a fresh chance for a tick to coincide with a queued signal
+		var bdone [2]atomic.Bool
+		stopRate := make(chan struct{})
+		go func() {
+			for {
+				select {
+				case <-stopRate:
+					return
+				default:
+					st.VerifSetFlushRate(1e-9)
+					time.Sleep(100 * time.Microsecond)
+				}
+			}
+		}()
+		for b := 0; b < 2; b++ {
+			b := b
+			go func() {
+				for j := 0; j < 8; j++ {
+					key, _ := mh.Encode([]byte{byte(100 + b), byte(j), 2, 3, 4, 5, 6, 7}, mh.SHA2_256)
+					if err := st.Put(key, []byte("burst")); err != nil {
+						putErr.Store("burst", err.Error())
+					}
+				}
+				bdone[b].Store(true)
+			}()
+		}
+		bdl := time.Now().Add(6 * time.Second)
+		for time.Now().Before(bdl) && !(bdone[0].Load() && bdone[1].Load()) {
+			time.Sleep(time.Millisecond)
+		}
+		close(stopRate)
+		for b := 0; b < 2; b++ {
+			if !bdone[b].Load() {
+				stuck = append(stuck, "burst"+strconv.Itoa(b+1))
+			}
 		}
 	}
 	errs := map[string]string{}
